@@ -535,9 +535,22 @@ def run(ctx):
             kv = run_program(j[0], j[1], j[2], j[4], 40000, j[5])
         return j, kv
 
+    def still_running(kv):
+        """cut by the watchdog while instructions were being dispatched and every stop request had completed: the machine is
+        slow, the run has produced no value and no scan violation: it says nothing about C15 (safety: who is inspected while
+        running; progress is C16's property, whose check judges hang-running with its own, longer bounds)"""
+        m = re.search(r"stops=(\d+)/(\d+)", kv.get("raw", ""))
+        return kv.get("outcome") == "hang-running" and int(kv.get("scanviol", "0") or 0) == 0 and bool(m) and m.group(1) == m.group(2)
+
     res = C.pool_map(prog_job, jobs, workers=max(2, C.NCPU // 4))
     for (n, e, p, cl, jit, jitter), kv in res:
+        if still_running(kv):
+            stats["prog_no_verdict_slow_machine"] = stats.get("prog_no_verdict_slow_machine", 0) + 1
+            continue
         judge_program(ctx, n, e, p, cl, jit, jitter, kv, known, stats)
+    if stats.get("prog_no_verdict_slow_machine"):
+        ctx.notes.append("%d program runs were cut by the 40 s watchdog while still dispatching instructions with every stop request "
+                         "completed (loaded machine): no verdict for C15 from them" % stats["prog_no_verdict_slow_machine"])
     # witnesses of the open findings that were not met above
     for kid, pred in (("K15a", lambda kv: empty_table_symptom(kv) or int(kv.get("scanviol", "0") or 0) > 0),
                       ("K15b", lambda kv: kv.get("outcome") == "finished" and kv.get("ok") == "0")):
